@@ -487,6 +487,19 @@ pub fn replay_c13(case: &J) -> i32 {
 
 // ------------------------------------------------------------------ C20
 
+/// n prefix-free patterns with 20 distinct start bytes (pattern-count
+/// thresholds of the packed prefilter: 64, 128; the builder must stay correct
+/// beyond them)
+fn nfam(n: usize) -> Pats {
+    (0..n)
+        .map(|i| {
+            let mut p = vec![b'b' + (i % 20) as u8, [b'q', b'x', b'j', b'v', b'w'][i % 5], b'0' + ((i / 20) % 10) as u8, b'0' + (i % 10) as u8];
+            p.extend(std::iter::repeat(b'z').take(i % 3));
+            p
+        })
+        .collect()
+}
+
 fn c20_families(thorough: bool) -> Vec<(String, Pats, bool)> {
     // (name, patterns, full option product?)
     let mut v: Vec<(String, Pats, bool)> = vec![
@@ -525,6 +538,14 @@ fn c20_families(thorough: bool) -> Vec<(String, Pats, bool)> {
         ("shadowed-prefix-middle".into(), vec![b("frodo"), b("sam"), b("samwise"), b("sa"), b("gandalf"), b("pippin"), b("gand")], true),
         ("shadowed-dups".into(), vec![b("foo"), b("bar"), b("foo"), b("quux"), b("foobar"), b("zap")], true),
         ("rare-byte-ids".into(), vec![b("ez"), b(" z"), b("tz"), b("ezz")], true),
+        ("n128-prefixfree".into(), nfam(128), true),
+        ("n129-prefixfree".into(), nfam(129), true),
+        ("n130-prefixfree".into(), nfam(130), true),
+        ("n140-prefixfree".into(), nfam(140), true),
+        ("n193-prefixfree".into(), nfam(193), true),
+        ("n194-prefixfree".into(), nfam(194), true),
+        ("n64-prefixfree".into(), nfam(64), true),
+        ("n65-prefixfree".into(), nfam(65), true),
         ("n1000".into(), (0..1000u32).map(|i| format!("p{}x{}", i, i % 7).into_bytes()).collect(), false),
     ];
     if thorough {
